@@ -12,7 +12,7 @@ VERIF = api.VERIF
 PROP_MODULES = {
     "C01": ["contracts.c01", "contracts.c01_bounded", "contracts.c15", "contracts.c18", "contracts.c02"],
     "C02": ["contracts.c02", "contracts.c02_bounded", "contracts.c15"],
-    "C03": ["contracts.c03", "contracts.c03_bounded"],
+    "C03": ["contracts.c03", "contracts.c03_bounded", "contracts.c06"],
     "C04": ["contracts.c04", "contracts.c05"],
     "C05": ["contracts.c05", "contracts.c05_bounded"],
     "C11": ["contracts.c11", "contracts.c11_bounded", "contracts.c02"],
@@ -191,8 +191,7 @@ def run_property(prop, tier="quick", seed=0, only=None, verbose=False):
 
     # ---- bounded stand-ins
     bounded_out = []
-    for b in bounded:
-        r = b.run(tier, seed)
+    for b, r in zip(bounded, api.fork_map(lambda b_: b_.run(tier, seed), bounded)):
         r["id"] = b.id
         bounded_out.append(r)
         for fl in r.get("failures", []):
